@@ -214,11 +214,11 @@ func c03Restart(t *testing.T, res *vResult) {
 			p.close()
 		}
 		populated := srv.snapshot()
-		// the old incarnation is abandoned; let it shut down in the background (its commands are refused)
-		go func(a *vAgent) {
-			a.bess = nil // the server stays up for the new incarnation
-			a.stop(vStopWatchdog)
-		}(a1)
+		// the old incarnation is abandoned: from the datapath's point of view it is dead (its commands are
+		// refused). Its goroutines are reaped before the next one starts (the Prometheus default registry is a
+		// process-wide global that every instance swaps).
+		a1.bess = nil // the server stays up for the new incarnation
+		a1.stop(vStopWatchdog)
 
 		o2 := o
 		o2.N4 = vEnv.addr(3)
